@@ -14,22 +14,22 @@ import (
 
 // Shapes of GenerateC07. C07Mixed draws several of the others at random.
 const (
-	C07Mixed         = iota
-	C07ChainWorst    // chain of depth 3-5 across modules and submodules, declared in the worst order
-	C07ChainRandom   // chain with random writers and random written order
-	C07UsesTarget    // target produced by a uses (own / imported grouping, two instances, one augmented)
-	C07ChoiceCase    // target is a choice, an explicit case, a container inside a case
-	C07RPC           // rpc/action input/output (written and implicit), notifications
-	C07Collision     // conflicting augments
-	C07NonContainer  // leaf, leaf-list, anyxml, anydata targets
-	C07Missing       // missing targets, unknown prefix, broken chain
-	C07BodyError     // uses of an unknown grouping inside the augment body
-	C07Submodule     // targets in submodule trees, augments written inside submodules
-	C07BodyVariety   // bodies with uses, containers, lists, choices, cases, leaf-lists, anydata
-	C07ImplicitCase  // outside the claim: target is (or lies below) a shorthand choice member
-	C07SubNoPrefix   // augment inside a submodule whose first step carries no prefix
-	C07ActionNoIO    // action without input/output statement, augment of its implicit input/output
-	C07NumShapes     // number of shapes
+	C07Mixed        = iota
+	C07ChainWorst   // chain of depth 3-5 across modules and submodules, declared in the worst order
+	C07ChainRandom  // chain with random writers and random written order
+	C07UsesTarget   // target produced by a uses (own / imported grouping, two instances, one augmented)
+	C07ChoiceCase   // target is a choice, an explicit case, a container inside a case
+	C07RPC          // rpc/action input/output (written and implicit), notifications
+	C07Collision    // conflicting augments
+	C07NonContainer // leaf, leaf-list, anyxml, anydata targets
+	C07Missing      // missing targets, unknown prefix, broken chain
+	C07BodyError    // uses of an unknown grouping inside the augment body
+	C07Submodule    // targets in submodule trees, augments written inside submodules
+	C07BodyVariety  // bodies with uses, containers, lists, choices, cases, leaf-lists, anydata
+	C07ImplicitCase // outside the claim: target is (or lies below) a shorthand choice member
+	C07SubNoPrefix  // augment inside a submodule whose first step carries no prefix
+	C07ActionNoIO   // action without input/output statement, augment of its implicit input/output
+	C07NumShapes    // number of shapes
 )
 
 // C07ShapeNames names the shapes (Distribution keys).
@@ -49,8 +49,8 @@ const (
 // C07Node is one node of the expected forest.
 type C07Node struct {
 	Mod   string `json:"m"`
-	Path  string `json:"p"`            // Entry.Path()
-	NS    string `json:"ns"`           // expected namespace
+	Path  string `json:"p"`             // Entry.Path()
+	NS    string `json:"ns"`            // expected namespace
 	AnyNS bool   `json:"any,omitempty"` // library-made implicit case directly above a grafted node: namespace not judged
 }
 
@@ -279,7 +279,7 @@ func (g *c07g) groupings() {
 			if g.chance(0.4) {
 				l := c.add("list", g.name("l", m))
 				l.add("key", "k")
-				g.leaf(l, "k")
+				l.add("leaf", "k").add("type", "string")
 				g.leaf(l.add("container", g.name("c", m)), g.name("f", m))
 			}
 			if g.chance(0.5) {
@@ -349,13 +349,13 @@ func (g *c07g) feature(m *Module, f int) {
 		if g.chance(0.5) {
 			l := c.add("list", g.name("l", m))
 			l.add("key", "k")
-			g.leaf(l, "k")
+			l.add("leaf", "k").add("type", "string")
 			g.leaf(l, g.name("f", m))
 		}
 	case 1: // list
 		l := b.add("list", g.name("l", m))
 		l.add("key", "k")
-		g.leaf(l, "k")
+		l.add("leaf", "k").add("type", "string")
 		g.leaf(l.add("container", g.name("c", m)), g.name("f", m))
 	case 2: // choice (top level or inside a container)
 		p := b
@@ -457,6 +457,11 @@ func c07expand(stmts []*Node, viaUses, viaSub bool, depth int, bodyErr *bool) []
 				n.name = c.Kw
 			}
 			n.kids = c07expand(c.Kids, viaUses, viaSub, depth+1, bodyErr)
+			for _, t := range c.Kids {
+				if t.Kw == "type" && t.Arg == "nosuchtype" && bodyErr != nil {
+					*bodyErr = true
+				}
+			}
 			if c.Kw == "rpc" || c.Kw == "action" {
 				for _, io := range []string{"input", "output"} {
 					if n.kid(io) == nil {
@@ -774,7 +779,7 @@ func (g *c07g) item(w *Module, a *Node, t *c07sn, kind int) {
 	case 2:
 		l := a.add("list", g.augName(w))
 		l.add("key", "k")
-		g.leaf(l, "k")
+		l.add("leaf", "k").add("type", "string")
 		if g.chance(0.5) {
 			g.leaf(l.add("container", g.augName(w)), g.augName(w))
 		}
@@ -991,12 +996,18 @@ func (g *c07g) op(shape int) {
 			if g.chance(0.5) {
 				g.leaf(a, g.augName(w))
 			}
-			if g.chance(0.5) {
+			switch g.r.Intn(4) {
+			case 0:
 				a.add("uses", "nosuchgrouping")
-			} else {
+			case 1:
 				cc := a.add("container", g.augName(w))
 				g.leaf(cc, g.augName(w))
 				cc.add("uses", "nosuchgrouping")
+			case 2:
+				a.add("leaf", g.augName(w)).add("type", "nosuchtype")
+			default:
+				cc := a.add("container", g.augName(w))
+				cc.add("leaf", g.augName(w)).add("type", "nosuchtype")
 			}
 		})
 		// nothing may depend on what this augment grafts
